@@ -6,7 +6,7 @@
 
   OBLIGATIONS (checked by the harness: `#print axioms` of each):
     sanitize_total stripentities_total sanitize_css_total
-    only_safe_elems_attrs no_comments
+    only_safe_elems_attrs no_comments no_cdata_markers
     wellnested_in_out end_tags_safe dropped_subtree_absent
     uri_attrs_checked uri_attrs_safe scheme_punct_rejected
     css_comments_dotall css_expression_classes_cover css_decode_fixed css_no_expression
@@ -76,6 +76,20 @@ theorem no_comments {cfg : Cfg} {s o : Stream} (h : sanitize cfg s = .ok o) (c :
   obtain ⟨st1, e, _, hem⟩ := sanitizeFrom_mem h _ hm
   cases hem with
   | other hw hns hnc => exact hnc c rfl
+
+/-- No CDATA section marker survives — for all input streams, balanced or not (finding
+    C06-cdata-markers, repaired: the text between the markers of the input is therefore ordinary
+    TEXT in the output, which every serializer escapes; before the repair the XML and XHTML
+    serializers wrote it verbatim and `]]><script>…` — or an unclosed section — re-parsed as a
+    live element). -/
+theorem no_cdata_markers {cfg : Cfg} {s o : Stream} (h : sanitize cfg s = .ok o) :
+    Event.startCdata ∉ o ∧ Event.endCdata ∉ o := by
+  refine ⟨?_, ?_⟩ <;> intro hm <;> obtain ⟨st1, e, _, hem⟩ := sanitizeFrom_mem h _ hm <;> cases hem with
+  | other hw hns hnc hsc hec => first | exact hsc rfl | exact hec rfl
+
+-- non-vacuity: a section (closed, then unclosed) around hostile text; the text stays, as plain TEXT
+example : sanitize Cfg.default [.startCdata, .text [']', ']', '>', '<', 's', '>'] false, .endCdata, .startCdata,
+    .text ['x'] false] = .ok [.text [']', ']', '>', '<', 's', '>'] false, .text ['x'] false] := by decide +kernel
 
 /-! ## Nesting and dropped subtrees -/
 
